@@ -838,6 +838,89 @@ def h_vmt_witness(shader: str, pname: str, pval: str, bval: str, has_block: bool
 
 
 # ------------------------------------------------------------------------------------------------------------
+# choreo: text scenes (VCD)
+# ------------------------------------------------------------------------------------------------------------
+
+VCD_SLOTS = ["ev_name", "param", "param2", "param3", "actor", "channel", "faceposer", "map_name", "tag", "timing_tag", "abs_tag",
+             "cc_token", "scale_val", "rel_tag", "rel_wav", "chan_ev_name"]
+VCD_SCALE_KEYS = ["CChoreoView", "Ramp Tool", 'a\\b "q"']
+
+
+def h_vcd(s: str, active: bool, chan_active: bool, ignore_ph: bool, snap: bool, has_tag: bool, has_ramp: bool, edge: bool,
+          comb: bool, gender: bool, supp: bool, locked: bool, etype: int, cap: int, n: int, slot: str = "ev_name",
+          flag_i: int = 0, mode: str = "kinds", skey: int = 0) -> None:
+    """Scene.export_text -> Tokenizer -> Scene.parse_text reproduces the scene field by field (everything the text form stores:
+    all 19 event kinds with their subclasses, tags of the four kinds, ramps with edges and curve types, relative tag, pitch/yaw,
+    caption fields, activity flags, map name, fps, snap, scale settings); exporting the parsed scene writes the same text.
+    One symbolic string (every code point, exact length) in the slot named by `slot`."""
+    import srctools.choreo as ch
+    from srctools.tokenizer import Tokenizer
+    assume(len(s) == n)
+    assume(0 <= etype < 19 and 0 <= cap < 3)
+    if mode == "kinds":        # event kind x relative tag x event ramp (with edges)
+        assume(active and chan_active and not ignore_ph and not snap and not comb and not gender and not supp and not locked and cap == 0)
+    elif mode == "speak":      # caption type x speak flags
+        assume(etype == 5 and active and chan_active and not ignore_ph and not snap and not has_tag and has_ramp and not edge and not locked)
+    else:                      # activity flags, scene switches, tag lock
+        assume(etype == 8 and not has_tag and has_ramp and not edge and cap == 0 and not comb and not gender and not supp)
+    assume(has_ramp or not edge)    # an event ramp without samples is not written at all (see the report)
+    v = {k: None for k in VCD_SLOTS}
+    v.update(ev_name="look at", param="!player", param2="", param3="", actor="Alyx", channel="audio", faceposer="", map_name="",
+             tag="rel", timing_tag="tim", abs_tag="abs", cc_token="cc.tok", scale_val="100", rel_tag="tag", rel_wav="wav.wav",
+             chan_ev_name="e2")
+    v[slot] = s
+    et = pick(list(ch.EventType), etype)
+    ctype = ch.CurveType(ch.Interpolation.HOLD, ch.Interpolation.EASE_IN)
+    ramp = ch.Curve([ch.ExpressionSample(0.5, 1.0), ch.ExpressionSample(1.0, 0.25, ctype)] if has_ramp else [],
+                    left=ch.CurveEdge(True, 0.5, ctype) if edge else ch.CurveEdge(False),
+                    right=ch.CurveEdge(True, 0.0) if edge else ch.CurveEdge(False))
+    common = dict(
+        name=v["ev_name"], parameters=(v["param"], v["param2"], v["param3"]), start_time=0.25, end_time=-1.0 if etype % 2 else 2.5,
+        ramp=ramp, flags=ch.EventFlags(BVCD_FLAGS[flag_i]), dist_to_targ=12.5, pitch=15 if etype % 3 else 0, yaw=-20 if etype % 2 else 0,
+        tag_name=v["rel_tag"] if has_tag else None, tag_wav_name=v["rel_wav"] if has_tag else None,
+        relative_tags=[ch.Tag(v["tag"], 0.5), ch.Tag("second", 1.0)], timing_tags=[ch.TimingTag(v["timing_tag"], 0.25, locked), ch.TimingTag("t2", 0.0, True)],
+        absolute_playback_tags=[ch.AbsoluteTag(v["abs_tag"], 0.5)], absolute_shifted_tags=[ch.AbsoluteTag("shift", 0.75)],
+    )
+    if et is ch.EventType.Speak:
+        assume(not (cap == 2 and comb))      # use_combined_file is not stored for cc_disabled events (format limitation)
+        ev = ch.SpeakEvent(caption_type=pick(list(ch.CaptionType), cap), cc_token=v["cc_token"], use_combined_file=comb,
+                           use_gender_token=gender, suppress_caption_attenuation=supp, **common)
+    else:
+        assume(cap == 0 and not comb and not gender and not supp)
+        if et is ch.EventType.Gesture:
+            ev = ch.GestureEvent(gesture_sequence_duration=1.75, **common)
+        elif et is ch.EventType.Loop:
+            ev = ch.LoopEvent(loop_count=3, **common)
+        else:
+            ev = ch.Event(type=et, **common)
+    scene = ch.Scene(
+        events=[ev],
+        actors=[ch.Actor(v["actor"], active, [ch.Channel(v["channel"], chan_active, []), ch.Channel("c2", True, [
+            ch.Event(name=v["chan_ev_name"], type=ch.EventType.Section, parameters=("", "", ""), start_time=0.0, ramp=ch.Curve())])],
+            faceposer_model=v["faceposer"])],
+        ramp=ch.Curve([ch.ExpressionSample(0.0, 0.0)], left=ch.CurveEdge(True, 1.0)), ignore_phonemes=ignore_ph,
+        map_name=v["map_name"], fps=30, use_frame_snap=snap, scale_settings={VCD_SCALE_KEYS[skey]: v["scale_val"], "GestureTool": "50"},
+    )
+    sink = ChunkSink()
+    scene.export_text(sink)
+    try:
+        got = ch.Scene.parse_text(Tokenizer(sink.parts))
+    except Exception as e:
+        raise Fail(f"exported scene does not parse: {type(e).__name__}: {e}")
+    _deep_eq(got, scene, "scene")
+    sink2 = ChunkSink()
+    got.export_text(sink2)
+    _same_pieces(sink.parts, sink2.parts, "vcd")
+
+
+def h_vcd_witness(s: str, active: bool, chan_active: bool, ignore_ph: bool, snap: bool, has_tag: bool, has_ramp: bool, edge: bool,
+                  comb: bool, gender: bool, supp: bool, locked: bool, etype: int, cap: int, n: int, slot: str = "ev_name",
+                  flag_i: int = 0, mode: str = "kinds", skey: int = 0) -> None:
+    h_vcd(s, active, chan_active, ignore_ph, snap, has_tag, has_ramp, edge, comb, gender, supp, locked, etype, cap, n, slot, flag_i, mode, skey)
+    raise Fail("reached")
+
+
+# ------------------------------------------------------------------------------------------------------------
 # obligations
 # ------------------------------------------------------------------------------------------------------------
 
